@@ -233,6 +233,13 @@ def run_case(c, stats):
     ok, u = call(A.union, B)
     if ok:
         call(u.concatenate, A)       # operations on results (renamed variables)
+    # every unary operation applied to the result of every unary operation (L+* = L*, L*+ = L*, (L^R)* ...)
+    unary = ["get_closure", "get_positive_closure", "reverse"]
+    for f1 in unary:
+        ok1, r1 = call(getattr(A, f1))
+        if ok1:
+            for f2 in unary:
+                call(getattr(r1, f2))
     ok, s1 = call(A.substitute, {ta: B})
     if ok:
         # substitute on a result of substitute: its variables already carry #SUBS# suffixes
